@@ -325,6 +325,13 @@ class SymWorld(WorldBase):
         """term-level equality of two scalars (python value or SV)."""
         return scalar_eq(a, b)
 
+    def alg(self, **kw):
+        from . import nra
+        return nra.SymAlg(**kw)
+
+    def require_alg(self, alg, goal, label, detail=None):
+        return self.eng.require_nra(alg, goal, label, detail)
+
     def clock(self):
         t = self.eng.named('clock_%d' % self._clock_n, 'real')
         if self._clock_n > 0:
@@ -454,6 +461,13 @@ class ConcreteWorld(WorldBase):
                 return a == b
             return abs(a - b) <= 1e-9 * max(1.0, abs(a), abs(b))
         return a == b
+
+    def alg(self, **kw):
+        from . import nra
+        return nra.ConcAlg()
+
+    def require_alg(self, alg, goal, label, detail=None):
+        return self.require(bool(goal), label, detail)
 
     def clock(self):
         t = self._val('clock_%d' % self._clock_n, 'real')
